@@ -25,7 +25,45 @@ CHECKS.update({
          "Names collide on purpose (including already-suffixed ones); after every registry or in-model operation the registry must map unique current names to the same model objects, closed models must be gone, and the descriptions (and, for unlinked models, the answers) of all other models must be unchanged.",
          "Trusted: mx.get_models() and the public description; backup-suffix numbers are not predicted.", "6/C19"),
 })
+CHECKS.update({
+ "C01": ("exploration", "seeded request schedules, independent tree-walking evaluator + execution log (probe) as oracle",
+         "Generated models are queried in seeded orders and spellings; every answer, the probe log of every request and dict(cells) are compared with an independent evaluator over the RefModel (cached: one execution per element ever; uncached: one per call).",
+         "Trusted: the evaluator's encoding of the documented name-resolution order; it declines (request skipped, counted) where an object-valued reference enters arithmetic.", "6/C01"),
+ "C03": ("exploration", "enumeration of ordered-base DAGs on 3 spaces + seeded inheritance histories, derivation-from-scratch oracle (CPython MRO)",
+         "After every step every space is compared with derivation from scratch over the mirrored definitions: bases == CPython's own MRO, member names, derived flags, formula/parameters/cached flag and values of the first definer; derived cells are evaluated against the independent evaluator.",
+         "Trusted: CPython's C3; the RefModel mirror of accepted edits; object-valued references are C10's.", "6/C03"),
+ "C04": ("exploration", "seeded persistence chains with the fs shim in logging mode, disk-twin (description + answers before write vs after read)",
+         "No fault or schedule dimension in the statement: fault-free configuration of the persistence simulator. Models come from seeded edit histories; write/zip -> read -> write chains; description, answers, file listings compared.",
+         "Trusted: public description; == on values. Corpus excludes two known findings (mode of literal references, inputs of derived cells).", "6/C04"),
+ "C05": ("fault_enumeration", "enumeration of every probe point of a query x exception kinds (probe fault injection), evaluator + retry as oracle",
+         "For each sampled (model, query) every probe point of the fault-free evaluation is taken as failure point for a seeded subset of exception kinds, plus forced None returns and two-fault sequences with formula-level handlers; outcome, get_error, held maps, retry values and retry execution log are compared with the evaluator.",
+         "Exhaustive per sampled scenario only. Trusted: evaluator (validated by C01).", "6/C05"),
+ "C06": ("exploration", "seeded value-edit histories, evaluator's dependency relation as exact oracle, recalculation option toggled",
+         "After every assignment/clear the held map and is_input of every cells must equal the evaluator's (edit of x removes exactly x's transitive dependents); evaluations must not re-execute kept values; with recalculation on the discarded leaves are recomputed at once.",
+         "After reference changes only 'inputs survive, values right' is asserted. Static spaces only.", "6/C06"),
+ "C07": ("exploration", "seeded ItemSpace histories: identity probes, kept handles, evaluator for instance values, fresh-twin",
+         "Parametrised spaces with defaults, nested parametrised children, parameter formulas returning references or another base; identity under all spellings, parameters bound, instance values vs evaluator, handles raise-or-current after base edits, fresh-twin freshness.",
+         "Trusted: evaluator; RefModel mirror; histories contain no value assignments.", "6/C07"),
+ "C08": ("exploration", "seeded histories with injected evaluation faults, exact graph comparison against the evaluator's call edges",
+         "After every step preds/succs/precedents of every held element and the node and edge sets of model.tracegraph are compared with the evaluator's call relation (pass-through for uncached cells), static global-name analysis and attribute reads.",
+         "Isolated object nodes of uncached cells are tolerated; references read inside uncached callees may appear in precedents. Static spaces.", "6/C08"),
+ "C10": ("exploration", "seeded placement histories over mode x target x depth, position-rule oracle by identity, dynamic trees walked",
+         "After every accepted edit every defined/derived object reference is compared by identity with the rule for the placements the statement covers, refmode must be preserved, and for an ItemSpace of every parametrised space the whole dynamic tree is walked.",
+         "Targets that are ancestors/siblings in the definer's top-level tree or descendants under static derivation are generated but not judged.", "6/C10"),
+ "C14": ("fault_enumeration", "fs-shim fault injection at mutating file-system calls of saves (seeded and exhaustive per save), disk model as oracle",
+         "Sequences of saves to one path with edits, loads and restarts; faults: fail-before (ENOSPC/EIO/EACCES), torn write, fail-on-close, EXDEV, transient PermissionError with virtual sleep; a fifth of the runs enumerate every mutating call of one save; loads are failed by corruption at rest. After every attempt the latest complete generation must load from the path or _BAK1, generations be ordered, zip destinations complete, registry/flags/temp files clean, and a fresh save+load round-trip.",
+         "Error-type interruptions only (no kill -9). Real zipfile/pickle/json on tmpfs; the shim decides which calls fail.", "6/C14"),
+ "C16": ("exploration", "seeded DAGs x target sets x step sizes, plan-twin (evaluator + probe execution log)",
+         "No fault dimension in the statement: generate_actions/execute_actions are compared with direct evaluation by the evaluator: held map untouched by planning, each needed element in exactly one calc block after its callees, targets hold direct values, nothing else left, nothing executed twice.",
+         "Static spaces, cached cells.", "6/C16"),
+ "C17": ("fault_enumeration", "enumeration of every probe point x exception kinds with earlier handled/unhandled failures, evaluator's executing stack as oracle",
+         "Same enumeration as C05; get_traceback() must equal the evaluator's stack at the raise (elements, arguments, source lines), get_error() the injected object, both empty after a later success.",
+         "Line numbers not asserted for None-returned/depth errors.", "6/C17"),
+})
 NA = {
+ "C15": "not built in this round: the export twin (exported package run in a modelx-free subprocess) was designed (DESIGN.md 6/C15) but there was no time to build and triage it; the property also has no fault or schedule dimension - nothing is claimed",
+ "C18": "not built in this round: the IOSpec history machine (DESIGN.md 6/C18) was not built for lack of time; nothing is claimed",
+ "C20": "quantified over inputs only (source-text layouts of a pure function of that text): no schedule, clock, fault, I/O interleaving or history for a simulator to own; covering it means a grammar-based text fuzzer, which is a different technique",
 }
 ALL = ["C%02d" % i for i in range(1, 21)]
 REASON_UNBUILT = "check not built yet in this round (see DESIGN.md build order); nothing is claimed for it"
